@@ -23,7 +23,7 @@ def shards(tier):
 
 
 def required_classes(tier):
-    return ["flip=0,Ry_odd=0", "flip=0,Ry_odd=1", "flip=1,Ry_odd=0", "flip=1,Ry_odd=1", "hash:len!=32", "hash:boundary", "key:boundary", "determinism"]
+    return ["flip=0,Ry_odd=0", "flip=0,Ry_odd=1", "flip=1,Ry_odd=0", "flip=1,Ry_odd=1", "hash:len!=32", "hash:boundary", "key:boundary", "determinism", "bytes-variants"]
 
 
 def one(rec, s, d, h, cec=None, tag=""):
@@ -89,6 +89,11 @@ def run(rec):
     lam_sc = [k % N for k in CG.endo_scalars(N) if 0 < k % N < N]
     keys_b += lam_sc[:14] + list(range(4, 20))
     hashes_b += [(k % N).to_bytes(32, "big") for k in lam_sc[:6]] + [((N - k) % N).to_bytes(32, "big") for k in lam_sc[:6]]
+    from .common import BytesSub, bit_patterns
+    for d in bit_patterns(256, rng, 3 if quick else 12):
+        if 0 < d < N:
+            keys_b.append(d)
+    hashes_b += [v.to_bytes(32, "big") for v in bit_patterns(256, rng, 2 if quick else 8)[:14]]
     i = 0
     cases = []
     for d in lam_sc:
@@ -112,6 +117,22 @@ def run(rec):
         i += 1
         if rec.mine(i):
             one(rec, s, d, h, cec, tag)
+    # the same values as other legal byte-string types
+    for rep in range(3 if quick else 30):
+        i += 1
+        if not rec.mine(i):
+            continue
+        d, h = rng.randrange(1, N), rng.randbytes(32)
+        rec.case("bytes-variants", None, nontrivial=False)
+        base = call(s.ecdsa_raw_sign, h, d.to_bytes(32, "big"))
+        for hv, kv in ((BytesSub(h), BytesSub(d.to_bytes(32, "big"))), (bytearray(h), bytearray(d.to_bytes(32, "big")))):
+            st, sg = call(s.ecdsa_raw_sign, hv, kv)
+            rec.check("B-ecdsa.sign", (st, sg if st == "ok" else None) == (base[0], base[1] if base[0] == "ok" else None) or (st == "exc" and base[0] == "exc"), "bytes-variants",
+                      "ecdsa_raw_sign depends on the exact type of its byte-string arguments (%s)" % type(hv).__name__, case={"fn": "sign+recover", "d": d, "hash": h}, facts={"fn": "sign", "kind": "type-dependence"})
+            if st == "ok":
+                st2, q = call(s.ecdsa_raw_recover, hv, sg)
+                rec.check("B-ecdsa.recover", st2 == "ok" and tuple(q) == MS.from_pt(MS.mul_g(d)), "bytes-variants", "recover with a %s hash differs" % type(hv).__name__,
+                          case={"fn": "sign+recover", "d": d, "hash": h}, facts={"fn": "recover", "kind": "type-dependence"})
     done = []
     for _ in range(2600 if quick else 250000):
         i += 1
